@@ -374,3 +374,27 @@ func fieldOwnerPtr(v ssa.Value) types.Type {
 	}
 	return nil
 }
+
+// SharedBy: the number of call sites of fn, counted at the first function up its chain of sole callers that has
+// more than one — a helper that is only reached through one wrapper is as shared as that wrapper. Used to recognise
+// maintenance helpers (retention pruning) that many operations run.
+func (p *Program) SharedBy(fn *ssa.Function) int {
+	fn = p.Orig(fn)
+	seen := map[*ssa.Function]bool{}
+	for fn != nil && !seen[fn] {
+		seen[fn] = true
+		cs := p.CallSitesOf(fn)
+		if len(cs) != 1 {
+			return len(cs)
+		}
+		parent := cs[0].Parent()
+		for parent != nil && parent.Parent() != nil {
+			parent = parent.Parent()
+		}
+		if parent == nil || parent.Object() == nil || parent.Object().Exported() {
+			return 1
+		}
+		fn = parent
+	}
+	return 1
+}
